@@ -674,7 +674,6 @@ func (g *c05Gen) reservationStep() {
 		asm.Node = n
 		g.emit(g.robj("rAssume", &asm))
 	case k < 4: // spec / annotation / status.allocatable change, same phase and node
-		old := *cur
 		switch g.rng.Intn(6) {
 		case 0:
 			cur.Owners, cur.Bad = g.owners()
@@ -689,7 +688,6 @@ func (g *c05Gen) reservationStep() {
 		default:
 			cur.Once = !cur.Once
 		}
-		_ = old
 		g.emit(g.robj("rUpdate", cur))
 	case k == 4 && g.rng.Intn(2) == 0: // resync
 		g.emit(g.robj("rUpdate", cur))
